@@ -27,6 +27,13 @@ Extractors are registered per property in EXTRACTORS below (properties without a
                                       FenwickTree::get/set, bitenc mask/addr/get_by_addr/set_by_addr, bwt::bwt,
                                       utils::prescan) translated to Lean by tools/rs2lean.py; the equality theorems
                                       with the mirror models (Thm/GenSrc*.lean) are restated in Thm/C08|C18|C04.lean
+  C20            Gen/SrcOrf.lean, SrcGc.lean, SrcAlphabet.lean     (dialect "cf", tools/rs2lean_cf.py)
+  C19            Gen/SrcQGrams.lean, SrcQGramIndex.lean
+  C07            Gen/SrcIit.lean
+                                      orf::Matches::next (+ its length test as a separate definition), gc::gcn_content,
+                                      Alphabet::{new,insert,is_word,max_symbol,len}, RankTransform::{new,get,transform},
+                                      qgram_push / QGrams::next / qgrams and the reverse trio, QGramIndex::with_max_count,
+                                      ArrayBackedIntervalTree::{index_core, find_into}; restated in Thm/C20|C19|C07.lean
 
 RbV/Thm/C01.lean and RbV/Thm/C02.lean import RbV.Thm.GenLimits / RbV.Thm.GenTbCodes and restate their theorems as
 property theorems, and the C01/C02 spec/reference files (`Spec/Align.lean` `minScore`, `Ref/Banded.lean` `maxCells`) are
